@@ -370,6 +370,30 @@ func rulePredictorTable(c *eng.Ctx) {
 			errDefault = true
 		}
 	}
+	if !errDefault {
+		// the rejection may live in the strategy chosen for unknown tags (a closure that returns the error) with the
+		// row decoder handing on whatever error the strategy reports
+		inner := false
+		for _, an := range row.AnonFuncs {
+			for _, r := range eng.Returns(an) {
+				if len(r.Results) > 0 {
+					if nn, known := eng.ErrValueNonNil(r.Results[len(r.Results)-1]); known && nn {
+						inner = true
+					}
+				}
+			}
+		}
+		propagates := false
+		for _, r := range eng.Returns(row) {
+			last := r.Results[len(r.Results)-1]
+			if ex, ok := last.(*ssa.Extract); ok {
+				if call, ok := ex.Tuple.(*ssa.Call); ok && eng.StaticCallee(call) == nil && !call.Call.IsInvoke() {
+					propagates = true
+				}
+			}
+		}
+		errDefault = inner && propagates
+	}
 	c.Check(allTags && errDefault, R, "filters.decodePNGRow#tags", row.Pos(), "row tags 0..4 handled, others rejected", fmt.Sprintf("row tag dispatch changed (tags compared: %v, erroring default: %v)", sortedKeys(tags), errDefault))
 }
 
@@ -429,10 +453,29 @@ func ruleStride(c *eng.Ctx) {
 		}
 		return nil, false
 	}
+	// a variable captured by a closure lives in a cell: the value the cell holds (stored once)
+	deref := func(v ssa.Value) ssa.Value {
+		if ld, ok := v.(*ssa.UnOp); ok && ld.Op == token.MUL {
+			if al, ok := ld.X.(*ssa.Alloc); ok {
+				var stored ssa.Value
+				n := 0
+				for _, r := range *al.Referrers() {
+					if st, ok := r.(*ssa.Store); ok && st.Addr == ssa.Value(al) {
+						stored = st.Val
+						n++
+					}
+				}
+				if n == 1 {
+					return stored
+				}
+			}
+		}
+		return v
+	}
 	var outBuf ssa.Value
 	for _, r := range eng.Returns(row) {
 		if !eng.IsNilConst(r.Results[0]) {
-			outBuf = r.Results[0]
+			outBuf = deref(r.Results[0])
 		}
 	}
 	baseName := func(v ssa.Value) string {
@@ -441,6 +484,7 @@ func ruleStride(c *eng.Ctx) {
 			return ""
 		}
 		_ = off
+		b = deref(b)
 		switch {
 		case b == outBuf:
 			return "out"
@@ -475,67 +519,152 @@ func ruleStride(c *eng.Ctx) {
 		3: {"out:" + left.String(): true, "prev:" + up.String(): true},
 		4: {"out:" + left.String(): true, "prev:" + up.String(): true, "prev:" + upLeft.String(): true},
 	}
-	geI := func(f eng.Fact) bool { // i >= bpp
-		op, x, y, ok := f.Cmp()
-		if !ok {
-			return false
+	// the arm of a tag may be a closure chosen under the tag test (a per-row strategy called with the byte index):
+	// its body is read with the captured variables replaced by what the row decoder bound them to and its integer
+	// parameter as the index i
+	capturedIn := func(cf *ssa.Function, mc *ssa.MakeClosure) func(ssa.Value) ssa.Value {
+		return func(v ssa.Value) ssa.Value {
+			cell := v
+			load := false
+			if ld, ok := v.(*ssa.UnOp); ok && ld.Op == token.MUL {
+				if _, isFV := ld.X.(*ssa.FreeVar); isFV {
+					cell, load = ld.X, true
+				}
+			}
+			fv, ok := cell.(*ssa.FreeVar)
+			if !ok {
+				return v
+			}
+			for i, f := range cf.FreeVars {
+				if f != fv || i >= len(mc.Bindings) {
+					continue
+				}
+				b := mc.Bindings[i]
+				if !load {
+					return b
+				}
+				if al, ok := b.(*ssa.Alloc); ok {
+					var stored ssa.Value
+					n := 0
+					for _, r := range *al.Referrers() {
+						if st, ok := r.(*ssa.Store); ok && st.Addr == ssa.Value(al) {
+							stored = st.Val
+							n++
+						}
+					}
+					if n == 1 {
+						return stored
+					}
+				}
+			}
+			return v
 		}
-		px, okx := eng.IntPoly(x, leaf)
-		py, oky := eng.IntPoly(y, leaf)
-		if !okx || !oky {
-			return false
-		}
-		return (op == token.GEQ && px.Equal(I) && py.Equal(B)) || (op == token.LEQ && px.Equal(B) && py.Equal(I))
-	}
-	gtRow := func(f eng.Fact) bool { // row > 0
-		op, x, y, ok := f.Cmp()
-		if !ok {
-			return false
-		}
-		px, okx := eng.IntPoly(x, leaf)
-		py, oky := eng.IntPoly(y, leaf)
-		if !okx || !oky {
-			return false
-		}
-		z, o := eng.PConst(0), eng.PConst(1)
-		return (op == token.GTR && px.Equal(Rw) && py.Equal(z)) || (op == token.GEQ && px.Equal(Rw) && py.Equal(o)) ||
-			(op == token.LSS && px.Equal(z) && py.Equal(Rw)) || (op == token.NEQ && px.Equal(Rw) && py.Equal(z))
 	}
 	for k := int64(1); k <= 4; k++ {
 		g := tagGuard(k)
 		got := map[string]bool{}
 		var bad []string
+		scan := func(f *ssa.Function, inArm func(*ssa.BasicBlock) bool, lf func(ssa.Value) (*eng.Poly, bool), bname func(ssa.Value) string) {
+			geIf := func(fc eng.Fact) bool { // i >= bpp
+				op, x, y, ok := fc.Cmp()
+				if !ok {
+					return false
+				}
+				px, okx := eng.IntPoly(x, lf)
+				py, oky := eng.IntPoly(y, lf)
+				if !okx || !oky {
+					return false
+				}
+				return (op == token.GEQ && px.Equal(I) && py.Equal(B)) || (op == token.LEQ && px.Equal(B) && py.Equal(I))
+			}
+			gtRowf := func(fc eng.Fact) bool { // row > 0
+				op, x, y, ok := fc.Cmp()
+				if !ok {
+					return false
+				}
+				px, okx := eng.IntPoly(x, lf)
+				py, oky := eng.IntPoly(y, lf)
+				if !okx || !oky {
+					return false
+				}
+				z, o := eng.PConst(0), eng.PConst(1)
+				return (op == token.GTR && px.Equal(Rw) && py.Equal(z)) || (op == token.GEQ && px.Equal(Rw) && py.Equal(o)) ||
+					(op == token.LSS && px.Equal(z) && py.Equal(Rw)) || (op == token.NEQ && px.Equal(Rw) && py.Equal(z))
+			}
+			eng.Instrs(f, false, func(in ssa.Instruction) {
+				ld, ok := in.(*ssa.UnOp)
+				if !ok || ld.Op != token.MUL || !inArm(ld.Block()) {
+					return
+				}
+				ia, ok := ld.X.(*ssa.IndexAddr)
+				if !ok {
+					return
+				}
+				bn := bname(ia.X)
+				if bn == "" || bn == "in" {
+					return
+				}
+				_, off, _ := eng.SliceBase(ia.X, lf)
+				idx, ok := eng.IntPoly(ia.Index, lf)
+				if !ok {
+					bad = append(bad, "index of a neighbour access is not an affine expression of i, bytesPerPixel, rowNum, rowLength at "+c.P.Pos(ld.Pos()))
+					return
+				}
+				idx = idx.Add(off)
+				keyS := bn + ":" + idx.String()
+				got[keyS] = true
+				// guards
+				needLeft := idx.Equal(left) || idx.Equal(upLeft)
+				needUp := bn == "prev"
+				if needLeft && !eng.GuardedBy(f, ld.Block(), geIf) {
+					bad = append(bad, "access "+keyS+" is not guarded by i >= bytesPerPixel (first pixel of a row has no left neighbour)")
+				}
+				if needUp && !eng.GuardedBy(f, ld.Block(), gtRowf) {
+					bad = append(bad, "access "+keyS+" is not guarded by rowNum > 0 (first row has no row above)")
+				}
+			})
+		}
+		scan(row, func(b *ssa.BasicBlock) bool { return g[b] }, leaf, baseName)
 		eng.Instrs(row, false, func(in ssa.Instruction) {
-			ld, ok := in.(*ssa.UnOp)
-			if !ok || ld.Op != token.MUL || !g[ld.Block()] {
+			mc, ok := in.(*ssa.MakeClosure)
+			if !ok || !g[mc.Block()] {
 				return
 			}
-			ia, ok := ld.X.(*ssa.IndexAddr)
-			if !ok {
+			cf, ok := mc.Fn.(*ssa.Function)
+			if !ok || cf.Blocks == nil {
 				return
 			}
-			bn := baseName(ia.X)
-			if bn == "" || bn == "in" {
-				return
+			res := capturedIn(cf, mc)
+			var iParam ssa.Value
+			for _, p := range cf.Params {
+				if bt, ok := p.Type().Underlying().(*types.Basic); ok && bt.Info()&types.IsInteger != 0 && iParam == nil {
+					iParam = p
+				}
 			}
-			_, off, _ := eng.SliceBase(ia.X, leaf)
-			idx, ok := eng.IntPoly(ia.Index, leaf)
-			if !ok {
-				bad = append(bad, "index of a neighbour access is not an affine expression of i, bytesPerPixel, rowNum, rowLength at "+c.P.Pos(ld.Pos()))
-				return
+			lf := func(v ssa.Value) (*eng.Poly, bool) {
+				if iParam != nil && v == iParam {
+					return eng.PSym("i"), true
+				}
+				if r := res(v); r != v {
+					if ph, isPhi := r.(*ssa.Phi); isPhi && isLoopCarried(ph) {
+						return nil, false
+					}
+					return eng.IntPoly(r, leaf)
+				}
+				return nil, false
 			}
-			idx = idx.Add(off)
-			keyS := bn + ":" + idx.String()
-			got[keyS] = true
-			// guards
-			needLeft := idx.Equal(left) || idx.Equal(upLeft)
-			needUp := bn == "prev"
-			if needLeft && !eng.GuardedBy(row, ld.Block(), geI) {
-				bad = append(bad, "access "+keyS+" is not guarded by i >= bytesPerPixel (first pixel of a row has no left neighbour)")
+			bname := func(v ssa.Value) string {
+				if r := res(v); r != v {
+					return baseName(r)
+				}
+				if sl, ok := v.(*ssa.Slice); ok {
+					if r := res(sl.X); r != sl.X {
+						return baseName(r)
+					}
+				}
+				return ""
 			}
-			if needUp && !eng.GuardedBy(row, ld.Block(), gtRow) {
-				bad = append(bad, "access "+keyS+" is not guarded by rowNum > 0 (first row has no row above)")
-			}
+			scan(cf, func(*ssa.BasicBlock) bool { return true }, lf, bname)
 		})
 		key := fmt.Sprintf("filters.decodePNGRow#tag %d neighbours", k)
 		var diff []string
@@ -1188,6 +1317,22 @@ func findPNGRow(p *eng.Prog) *pngRow {
 
 // role names the input a value stands for inside the row decoder ("" if none).
 func (r *pngRow) role(v ssa.Value) string {
+	// a parameter captured by a closure lives in a cell: read through the load to the parameter it holds
+	if ld, ok := v.(*ssa.UnOp); ok && ld.Op == token.MUL {
+		if al, ok := ld.X.(*ssa.Alloc); ok {
+			var stored ssa.Value
+			n := 0
+			for _, ref := range *al.Referrers() {
+				if st, ok := ref.(*ssa.Store); ok && st.Addr == ssa.Value(al) {
+					stored = st.Val
+					n++
+				}
+			}
+			if _, isP := stored.(*ssa.Parameter); isP && n == 1 {
+				v = stored
+			}
+		}
+	}
 	name := ""
 	switch x := v.(type) {
 	case *ssa.Parameter:
